@@ -22,13 +22,23 @@ PINS = [
     'mesonbuild.utils.universal:version_check_to_range',
     'mesonbuild.utils.universal:version_compare_condition_with_min',
     'mesonbuild.interpreterbase.interpreterbase:InterpreterBase.evaluate_if',
+    'mesonbuild.interpreterbase.interpreterbase:InterpreterBase.evaluate_notstatement',
+    'mesonbuild.interpreterbase.interpreterbase:InterpreterBase.evaluate_andstatement',
+    'mesonbuild.interpreterbase.interpreterbase:InterpreterBase.evaluate_orstatement',
+    'mesonbuild.interpreterbase.interpreterbase:InterpreterBase.evaluate_comparison',
+    'mesonbuild.interpreter.dependencyfallbacks:DependencyFallbacksHolder._check_version',
+    'mesonbuild.interpreter.interpreter:Interpreter.check_program_version',
+    'mesonbuild.dependencies.base:ExternalDependency._check_version',
     'mesonbuild.interpreterbase.decorators:FeatureCheckBase.use',
     'mesonbuild.interpreterbase.decorators:FeatureCheckBase.get_target_version',
     'mesonbuild.interpreter.interpreter:Interpreter.handle_meson_version',
 ]
 TRUSTED = ['Python primitive comparisons on int/str/bool/len are the orders the model uses (Nat order, code-point lexicographic)',
            'domain: ASCII strings plus non-ASCII code points that CPython classes as neither digit, letter nor space; '
-           'digit runs shorter than 4300 characters']
+           'digit runs shorter than 4300 characters',
+           'if/elif conditions are built from meson.version().version_compare() calls, booleans, not / and / or / parentheses and '
+           '== / != with a boolean literal; a version check whose result flows through a ternary, a function or method argument '
+           'or a container is outside the generated domain (evaluate_if\'s tmp_meson_version mechanism is a heuristic there)']
 
 COMPONENTS = ['0', '1', '2', '10', '01', 'a', 'b', 'rc', 'B']
 SEPS = ['.', '-', '', '+']
@@ -337,6 +347,12 @@ def run(ctx: Ctx) -> None:
         gate_stream(ctx, U, add, small)
     except Exception as e:
         ctx.notes.append(f'feature-gate stream unavailable: {type(e).__name__}: {e}')
+    try:
+        from . import c19_entry
+        c19_entry.entry_stream(ctx, U, add)
+    except Exception as e:
+        ctx.notes.append(f'entry-point stream unavailable: {type(e).__name__}: {e}')
+        ctx.obligation_failed('entry_point_stream_runs', f'{type(e).__name__}: {e}')
 
     # ---- correspondence: model driver on the same inputs
     ctx.count(len(cases))
@@ -432,37 +448,55 @@ class GateGen:
         self.n = 0
         self.lines: T.List[str] = []
         self.toks: T.List[str] = []
-        self.paths: T.Dict[int, T.List[T.List[str]]] = {}
-        self.clause_lines: T.Dict[int, T.Tuple[T.Optional[T.List[str]], T.List[T.List[str]]]] = {}
+        self.ktoks: T.List[str] = []          # the same skeleton with every clause condition as an expression (driver)
+        # per probe: the enclosing clauses that make a version check, outside in; each
+        # {'exact': constraint list when the condition is one plain check, else None,
+        #  'pos': constraint lists of the checks that count positively, 'all': those of every check}
+        self.paths: T.Dict[int, T.List[dict]] = {}
+        self.clause_lines: T.Dict[int, T.Tuple[T.Optional[dict], T.List[dict]]] = {}
         self.pool = ['0.40', '0.50.0', '0.63', '1.0', '1.2.0', '1.3', cv, '2.0', '99']
         self.kinds: T.Set[str] = set()
 
-    def cond(self, U) -> T.Tuple[str, T.Optional[T.List[str]], bool]:
+    def cond(self, U) -> T.Tuple[str, T.Optional[dict], bool, str]:
+        """-> (text, info about the version checks in it or None, truth value, expression for the driver)"""
+        from . import c19_entry
         rng = self.rng
         k = rng.random()
-        if k < 0.6:
+        if k < 0.42:
             checks = []
             while not checks:
                 checks = [c for c in (rand_check(rng, self.pool) for _ in range(rng.choice([1, 1, 1, 2])))
                           if not c.strip().startswith('!') and _lit(c) is not None]
             val = all(U.version_compare(self.cv, c) for c in checks)
             txt = 'meson.version().version_compare(' + ', '.join(_lit(c) for c in checks) + ')'
+            kx = 'c' + enc_list(checks)
             form = rng.choice(['plain', 'plain', 'and-t', 'or-f', 'paren'])
             if form == 'and-t':
-                txt = txt + ' and t'
+                txt, kx = txt + ' and t', 'a/' + kx + '/t'
             elif form == 'or-f':
-                txt = txt + ' or f'
+                txt, kx = txt + ' or f', 'o/' + kx + '/f'
             elif form == 'paren':
                 txt = '(' + txt + ')'
             self.kinds.add('vc:' + form + ':' + ('T' if val else 'F'))
-            return txt, checks, val
+            return txt, {'exact': checks, 'pos': [checks], 'all': [checks]}, val, kx
+        if k < 0.72:
+            e = c19_entry.gen_expr(rng, U, self.cv, self.pool, 2)
+            shape = ''.join(ch for ch in e.k.replace('/', '') if ch in 'naoqctf')[:6]
+            self.kinds.add('expr:' + ''.join(sorted(set(ch for ch in shape if ch in 'naoq'))) + ':' + ('T' if e.val else 'F'))
+            if not e.allc:
+                return e.txt, None, e.val, e.k
+            return e.txt, {'exact': None, 'pos': e.pos, 'all': e.allc}, e.val, e.k
         val = rng.random() < 0.5
         form = rng.choice(['lit', 'var', 'cmp'])
         txt = {'lit': 'true' if val else 'false', 'var': 't' if val else 'f', 'cmp': '1 == 1' if val else '1 == 2'}[form]
         self.kinds.add('plain:' + ('T' if val else 'F'))
-        return txt, None, val
+        return txt, None, val, 't' if val else 'f'
 
-    def block(self, U, depth: int, path: T.List[T.List[str]], in_loop: bool = False) -> None:
+    def tok(self, t: str, k: T.Optional[str] = None) -> None:
+        self.toks.append(t)
+        self.ktoks.append(t if k is None else k)
+
+    def block(self, U, depth: int, path: T.List[dict], in_loop: bool = False) -> None:
         rng = self.rng
         for _ in range(rng.randint(1, 3)):
             k = rng.random()
@@ -471,39 +505,39 @@ class GateGen:
             elif depth < 3 and k < 0.62:
                 n = rng.choice([1, 2])
                 self.lines.append('foreach it_%d : %s' % (depth, '[1]' if n == 1 else '[1, 2]'))
-                self.toks.append(f'L{n}')
+                self.tok(f'L{n}')
                 self.block(U, depth + 1, path, True)
                 self.lines.append('endforeach')
-                self.toks.append('M')
+                self.tok('M')
                 self.kinds.add('loop')
             elif k < 0.72 and (in_loop or rng.random() < 0.15):
                 # leave the block early: break / continue inside a foreach, subdir_done() anywhere
                 kind = rng.choice(['b', 'c', 'c', 'd'] if in_loop else ['d'])
                 self.lines.append({'b': 'break', 'c': 'continue', 'd': 'subdir_done()'}[kind])
-                self.toks.append('X' + kind)
+                self.tok('X' + kind)
                 self.kinds.add('exit:' + kind + (':gated' if path else ':plain'))
             else:
                 self.n += 1
                 self.paths[self.n] = list(path)
                 self.lines.append(f"message('P{self.n}')")
-                self.toks.append(f'P{self.n}')
+                self.tok(f'P{self.n}')
 
-    def ifstmt(self, U, depth: int, path: T.List[T.List[str]], in_loop: bool = False) -> None:
+    def ifstmt(self, U, depth: int, path: T.List[dict], in_loop: bool = False) -> None:
         rng = self.rng
-        self.toks.append('I')
+        self.tok('I')
         nclauses = rng.choice([1, 1, 2, 2, 3])
         for i in range(nclauses):
-            txt, checks, val = self.cond(U)
+            txt, info, val, kx = self.cond(U)
             self.lines.append(('if ' if i == 0 else 'elif ') + txt)
-            self.clause_lines[len(self.lines)] = (checks, list(path))
-            self.toks.append(f'C{int(val)}:' + (enc_list(checks) if checks else ''))
-            self.block(U, depth + 1, path + ([checks] if checks else []), in_loop)
+            self.clause_lines[len(self.lines)] = (info, list(path))
+            self.tok(f'C{int(val)}:', 'K:' + kx)
+            self.block(U, depth + 1, path + ([info] if info else []), in_loop)
         if rng.random() < 0.6:
             self.lines.append('else')
-            self.toks.append('E')
+            self.tok('E')
             self.block(U, depth + 1, path, in_loop)
         self.lines.append('endif')
-        self.toks.append('F')
+        self.tok('F')
 
 
 def gate_expected_sequence(toks: T.List[str]) -> T.Tuple[T.List[int], str]:
@@ -614,7 +648,7 @@ def gate_stream(ctx: Ctx, U, add, small) -> None:
             g.lines += ['t = true', 'f = false']
             g.block(U, 0, [])
             code = '\n'.join(g.lines) + '\n'
-            prog = ';'.join(g.toks)
+            prog = ';'.join(g.ktoks)
             del log[:], warns[:]
             impl_i.reset()
             mesonlib.project_meson_versions[impl_i.interp.subproject] = U.version_check_to_range([pv])
@@ -640,18 +674,38 @@ def gate_stream(ctx: Ctx, U, add, small) -> None:
                 ctx.violation(f'gate-seq:{pv}:{code!r}', f'blocks executed {[n for n, _ in log]} (left: {left!r}), the conditions '
                               f'and break/continue/subdir_done() select {want_seq} (left: {want_left!r})', case)
                 continue
-            # --- oracle 2: membership in the range in force = outer constraint and the checks on the path
+            # --- oracle 2: the range in force at every executed statement
+            #   (a) contains the version that is running (the conditions evaluated the way they did FOR that version);
+            #   (b) stays inside the project constraint;
+            #   (c) contains every version that satisfies the project constraint and every positively counted check
+            #       of the enclosing clauses;
+            #   (d) is EXACTLY project constraint + enclosing checks when every enclosing condition is one plain check
             bad = None
             for n, r in log:
                 if r is None or not hasattr(r, 'intersect'):
                     bad = f'P{n}: no version range in force'
                     break
+                path = g.paths[n]
+                if U.Version(cv) not in r:
+                    bad = (f'P{n}: this statement is being executed by meson {cv}, but the range in force there ({r}) does not '
+                           f'contain {cv} (a version check that does not hold for the running version narrowed the range)')
+                    break
+                exact = all(p['exact'] is not None for p in path)
                 for vs in grid:
-                    want = U.version_compare(vs, pv) and all(U.version_compare(vs, c) for cl in g.paths[n] for c in cl)
-                    if (U.Version(vs) in r) != want:
-                        bad = (f"P{n}: version {vs} is {'in' if not want else 'not in'} the range in force ({r}) although it "
-                               f"{'satisfies' if want else 'does not satisfy'} the project constraint {pv!r} and the checks "
-                               f'of the enclosing clauses {g.paths[n]}')
+                    inside = U.Version(vs) in r
+                    in_pv = U.version_compare(vs, pv)
+                    if inside and not in_pv:
+                        bad = f'P{n}: version {vs} is in the range in force ({r}) but violates the project constraint {pv!r}'
+                        break
+                    want_pos = in_pv and all(U.version_compare(vs, c) for p in path for cl in p['pos'] for c in cl)
+                    if want_pos and not inside:
+                        bad = (f'P{n}: version {vs} is not in the range in force ({r}) although it satisfies the project '
+                               f"constraint {pv!r} and every version check of the enclosing clauses {[p['all'] for p in path]}")
+                        break
+                    if exact and inside != want_pos:
+                        bad = (f"P{n}: version {vs} is {'in' if inside else 'not in'} the range in force ({r}) although it "
+                               f"{'satisfies' if want_pos else 'does not satisfy'} the project constraint {pv!r} and the checks "
+                               f"of the enclosing clauses {[p['exact'] for p in path]}")
                         break
                 if bad:
                     break
@@ -669,18 +723,23 @@ def gate_stream(ctx: Ctx, U, add, small) -> None:
                     bad = f'line {ln}: "{txt}" reported at a clause whose condition makes no version check'
                     break
                 seen_lines.add(ln)   # (a clause inside a foreach is evaluated once per iteration: repeats are fine)
-                checks, path = cl
-                members = [vs for vs in grid if U.version_compare(vs, pv) and all(U.version_compare(vs, c) for pl in path for c in pl)]
-                sat = [vs for vs in members if all(U.version_compare(vs, c) for c in checks)]
-                if 'evaluates to true' in txt and len(sat) != len(members):
-                    bad = f'line {ln}: said always true, but {sorted(set(members) - set(sat))[:3]} are in range and fail {checks}'
-                if 'evaluates to false' in txt and sat:
-                    bad = f'line {ln}: said always false, but {sat[:3]} are in range and satisfy {checks}'
+                info, path = cl
+                members = [vs for vs in grid if U.version_compare(vs, pv) and
+                           all(U.version_compare(vs, c) for p in path for pl in p['pos'] for c in pl)]
+                if not all(p['exact'] is not None for p in path):
+                    continue   # the enclosing range is only bounded from both sides, not determined: nothing exact to demand
+                sats = [[vs for vs in members if all(U.version_compare(vs, c) for c in checks)] for checks in info['all']]
+                if 'evaluates to true' in txt and not any(len(sat) == len(members) for sat in sats):
+                    bad = f"line {ln}: said always true, but no version check of the condition {info['all']} holds for all of {members[:6]}…"
+                if 'evaluates to false' in txt and not any(not sat for sat in sats):
+                    bad = f"line {ln}: said always false, but every version check of the condition {info['all']} holds for some version in range"
             if bad:
                 ctx.violation(f'gate:{pv}:{code!r}', bad, case)
-            add('gate', [pv, code], f'gate {enc(pv)}|{prog}', '&'.join(f'{n}:{show_range(r)}' for n, r in log) + ('#done' if left else ''))
+            add('gate', [pv, code], f'gatex {enc(pv)}|{enc(cv)}|{prog}', '&'.join(f'{n}:{show_range(r)}' for n, r in log) + ('#done' if left else ''))
             if any(g.paths[n] for n, _ in log):
                 ctx.seen_nontrivial(('gate', code))
+            if any(p['exact'] is None for n, _ in log for p in g.paths[n]):
+                ctx.tag('gate:probe-under-compound-condition')
         for k in sorted(kinds):
             ctx.tag('gate-cond:' + k)
     finally:
@@ -711,10 +770,14 @@ def strings_of(x) -> T.List[str]:
 def search(ctx: Ctx, disagreements: T.List[dict]) -> None:
     """failing-input search: the property's predicates on the implementation, around the inputs on
     which model and implementation differ (and over the small exhaustive set when a proof broke)."""
+    if ctx.violations:
+        return   # the oracle pass already produced a concrete failing input on the implementation
     U = impl()
     seeds: T.List[str] = []
     for d in disagreements:
-        seeds += strings_of(d.get('input'))
+        if d.get('kind') in ('gate',):
+            continue   # whole programs are not version strings; their failing inputs come from the gate oracle itself
+        seeds += [x for x in strings_of(d.get('input')) if len(x) <= 64]
     seeds = list(dict.fromkeys(seeds))[:40]
     near = list(dict.fromkeys(itertools.chain.from_iterable(neighbours(s) for s in seeds)))[:600]
     small = small_versions()
@@ -780,6 +843,14 @@ def replay(ctx: Ctx, rep: dict) -> None:
     U = impl()
     case = rep.get('case', {})
     print('replay', rep.get('what'), case)
+    if 'entry' in case:
+        from . import c19_entry
+        print('entry point', case['entry'], 'receiver', case.get('receiver'), 'constraints', case.get('conds'))
+        print('each constraint on the implementation:', [U.version_compare(case.get('receiver', ''), c) for c in case.get('conds', [])])
+        print('model:', ctx.driver('ver', [f"entry {case['entry']}|{enc(case.get('receiver', ''))}|{enc_list(case.get('conds', []))}"]))
+    if 'code' in case:
+        print('project constraint', case.get('pv'))
+        print(case['code'])
     if 'a' in case and 'b' in case and isinstance(case['a'], str):
         print('impl oracle:', oracle_pair(U, case['a'], case['b']))
         print('model:', ctx.driver('ver', [f'cmp {enc(case["a"])}|{enc(case["b"])}']))
